@@ -120,6 +120,10 @@ def main(argv=None):
         with open(a.replay) as fh:
             rp = json.load(fh)
         cases = [rp["case"]]
+        w = rp.get("witness") or {}
+        if isinstance(w, dict) and w.get("desc") is not None and "desc" not in cases[0]:
+            cases[0]["desc"] = w["desc"]
+            cases[0]["features"] = w.get("features") or {}
     else:
         cases = mod.plan(tier, seed)
         if a.cases:
@@ -163,7 +167,7 @@ def main(argv=None):
     violations, known_hits, harness_errors = [], {}, []
     reach = {}
     by_id = {c["id"]: c for c in cases}
-    witness = {r["id"]: r.get("sample") for r in results if r.get("violations")}
+    witness = {r["id"]: {"sample": r.get("sample"), "desc": r.get("witness_desc"), "features": r.get("witness_features")} for r in results if r.get("violations")}
     for r in results:
         if r["status"] == "meta":
             for f, n in r.get("reach", {}).items():
